@@ -128,3 +128,22 @@ def sumInts : List Int → Int
   | [] => 0
   | x :: xs => x + sumInts xs
 end Nibiru
+
+namespace Nibiru
+def denomChar (c : Char) : Bool := c.isAlphanum || c = '/' || c = ':' || c = '.' || c = '_' || c = '-'
+
+/-- `sdk.ValidateDenom` : `[a-zA-Z][a-zA-Z0-9/:._-]{2,127}` -/
+def validDenom (d : String) : Bool :=
+  match d.toList with
+  | [] => false
+  | c :: cs => c.isAlpha && cs.all denomChar && decide (2 ≤ cs.length) && decide (cs.length ≤ 127)
+
+/-- split a character list on a separator (like `strings.Split` on a one-byte separator) -/
+def splitChar (sep : Char) : List Char → List (List Char)
+  | [] => [[]]
+  | c :: cs =>
+    if c = sep then [] :: splitChar sep cs
+    else match splitChar sep cs with
+      | [] => [[c]]
+      | h :: t => (c :: h) :: t
+end Nibiru
